@@ -13,8 +13,14 @@ STATUS (milestone 1).  Proved: index GC cycles stutter — `C04_indexGC_stutters
 `C04_store_refines_map_partial_igc` (the full refinement statement for every history WITHOUT primary GC
 cycles: index GC cycles and reopens — snapshot and rescan — at arbitrary positions) and
 `C04_reopen_after_igc`.  The full statement, with primary GC cycles, is kept below as a comment.
+
+STATUS (milestone 2).  Proved: a primary GC cycle stutters on every multihash state that satisfies the
+GC invariant `GInv` (Sth/Lemmas/C04G.lean) — `C04_primaryGC_stutters`.  `GInv` is kept by put / remove /
+reads / flush / index GC / reopen (Sth/Lemmas/C04GStep.lean … C04GIgc.lean); the run theorem that
+threads it through whole histories is milestone 3.
 -/
 import Sth.Lemmas.C04M1
+import Sth.Lemmas.C04M2
 
 namespace Sth
 
@@ -78,6 +84,31 @@ theorem C04_reopen_after_igc (c : Cfg) (hc : c.Legal) (ops : List SOp)
   have hU := univ_of_keysOK hk (keysExact_all c.kind ops)
   exact reopen_observations4 hc hU hI hX (by have := hs.1; omega) (by have := hs.2.1; omega) ord
     useSnapshot
+
+/-- A primary GC cycle on a multihash store in a state satisfying the GC invariant for the
+    specification map `spec` — two hand-over passes (freelist rotation, primary flush, deleteRecords),
+    reapRecords on every unvisited closed file (merging deleted spans, truncating deleted tails,
+    relocating the last two records of a sparsely used file, unlinking an emptied first file), cut short
+    by the deadline at ANY poll or by a flush error —
+    (a) keeps the invariant for the SAME map (`k` bounds the file counters; every relocation may open
+        one more file, hence `3 * k`),
+    (b) leaves the result of every Get / Has / GetSize unchanged, and
+    (c) leaves every key of the map with an index entry whose record is readable: no live record was
+        marked deleted, truncated or lost in a relocation. -/
+theorem C04_primaryGC_stutters {c : Cfg} {U : List (Bytes × Bytes)} {s : SState} {spec : Spec}
+    {k B : Nat} (hU : Univ c.kind U) (hG : GInv c U s spec k B) (hk : 3 * k < 1073741824)
+    (lowUse : Nat) (budget : Budget) :
+    (stepS s (.pgc lowUse budget)).2 = .gc ∧
+    (∃ k', GInv c U (stepS s (.pgc lowUse budget)).1 spec k' B ∧ k' ≤ 3 * k) ∧
+    (∀ op : SOp, ((∃ key, op = .get key) ∨ (∃ key, op = .has key) ∨ (∃ key, op = .size key)) →
+      (∀ key, op.keyOf = some key → ∀ dig, keyClass c.kind key = .ok dig → (key, dig) ∈ U) →
+      (stepS (stepS s (.pgc lowUse budget)).1 op).2 = (stepS s op).2 ∧
+      (stepS (stepS s (.pgc lowUse budget)).1 op).1 = (stepS s (.pgc lowUse budget)).1) ∧
+    (∀ dig key val, Spec.get spec dig = some (key, val) →
+      ∃ blk, IsEnt (stepS s (.pgc lowUse budget)).1.m (stepS s (.pgc lowUse budget)).1.d blk ∧
+        priGet (stepS s (.pgc lowUse budget)).1.m (stepS s (.pgc lowUse budget)).1.d blk =
+          .got key val) :=
+  primaryGC_stutters hU hG hk lowUse budget
 
 /-! Non-vacuity: 1-byte files (every record its own file, so index GC empties, unlinks and advances
     the first file), overwrites and removals that leave stale index records, index GC cycles with and
